@@ -148,6 +148,8 @@ class Check:
                 kind, msg = 'panic', p.msg + (' @ ' + p.where if p.where else '')
             except PathPruned:
                 continue
+            except LoopBack as lb:
+                kind, msg = 'back', lb.fn; val = lb.values
             except BoundExceeded as b:
                 kind, msg = 'bound', str(b)
             except Unsupported as e:
@@ -232,7 +234,7 @@ class Check:
         self.solver_s += dt
         return r, (s.model() if r == z3.sat else None), dt
 
-    def oblige(self, oid, path, violation, desc='', lemmas=(), site='', abstract=False, native_pred=None, nice=()):
+    def oblige(self, oid, path, violation, desc='', lemmas=(), site='', abstract=False, native_pred=None, nice=(), timeout_ms=None):
         """The property holds on `path` unless `violation` (z3 Bool / bool) is satisfiable under the path condition.
         abstract=True: first try the query with every product of variables replaced by a fresh integer constrained only by sign and
         by monotonicity between squares (an over-approximation: unsat there implies unsat of the exact query); fall back to the exact query."""
@@ -248,13 +250,13 @@ class Check:
                 rec = dict(id=oid, verdict='unsat', how='trivial', s=0.0, desc=desc, path=path.short())
                 self.oblig.append(rec); return 'unsat'
             violation = z3.BoolVal(True)
-        r, model, dt = self.solve(conds + [violation])
+        r, model, dt = self.solve(conds + [violation], timeout_ms)
         if r == z3.unknown:
             # portfolio: the verdict must not depend on the solver's random seed; retry with other seeds before giving up
             seed0 = self.seed
             for k in (1, 2, 3):
                 self.seed = seed0 + 7919 * k
-                try: r, model, dt2 = self.solve(conds + [violation])
+                try: r, model, dt2 = self.solve(conds + [violation], timeout_ms)
                 finally: self.seed = seed0
                 dt += dt2; self.retries = getattr(self, 'retries', 0) + 1
                 if r != z3.unknown: break
